@@ -222,7 +222,16 @@ def same_number(a, b, rng_env):
             if not (math.isfinite(x.real) and math.isfinite(x.imag)):
                 raise OverflowError()
             if not (abs(x - y) <= 1e-12 * max(1.0, abs(x))):
-                return False
+                # sympy prints Float coefficients with 15 significant digits (recorded assumption): allow what a
+                # relative change of 1e-15 in the expression's own Float atoms can do to the value (conditioning,
+                # e.g. cos(68921.0*(0.0243902439024390*y + 1)**3)), and nothing more
+                dev = 0.0
+                if isinstance(a, sympy.Expr) and a.atoms(sympy.Float):
+                    for sgn in (1, -1):
+                        ap = a.xreplace({f: f * (1 + sgn * sympy.Float("1e-15", 30)) for f in a.atoms(sympy.Float)})
+                        dev = max(dev, abs(numeric(ap, env) - x))
+                if not (abs(x - y) <= 1e-12 * max(1.0, abs(x)) + 8 * dev):
+                    return False
         except (OverflowError, TypeError):           # beyond double range: compare 15 significant digits
             sa, sb = (sympy.sympify(v).subs(env, simultaneous=True) if env else sympy.sympify(v) for v in (a, b))
             if str(sympy.N(sa, 15)) != str(sympy.N(sb, 15)):
